@@ -406,6 +406,57 @@ pub fn random_step(w: &mut World, sc: &Scenario, rec: &mut Recorder) {
         rec.exec(w, &ix, false, json!(null));
         return;
     }
+    if w.rng.gen_bool(0.03) {
+        // administration and life-cycle operations in the middle of a history: the fee authority changes the pool's fee /
+        // protocol fee rate between swaps; a position is locked (it can still be increased, its fees collected), or an
+        // empty one re-ranged
+        match w.rng.gen_range(0..4) {
+            0 => {
+                let rate = pick(w, &[0u16, 1, 100, 3000, 10000, 30000, 60000, 60001]);
+                let ix = w.ix_set_fee_rate(&pool, rate);
+                rec.exec(w, &ix, false, json!(null));
+            }
+            1 => {
+                let rate = pick(w, &[0u16, 1, 300, 1000, 2500, 2501]);
+                let ix = w.ix_set_protocol_fee_rate(&pool, rate);
+                rec.exec(w, &ix, false, json!(null));
+            }
+            2 if !pos.is_empty() => {
+                let p = pick(w, &pos);
+                if w.positions[&p].kind == PosKind::TokenExt {
+                    let owner = w.positions[&p].owner.clone();
+                    let ix = w.ix_lock_position(&p, &owner);
+                    rec.exec(w, &ix, false, json!(null));
+                }
+            }
+            _ if !pos.is_empty() && sc.bounds.len() >= 2 => {
+                // prefer a position without liquidity; what it is still owed is collected first (a position can be re-ranged
+                // only when empty)
+                let empty: Vec<String> = pos.iter().filter(|n| w.pos_range(n).map(|x| x.0 == 0).unwrap_or(false)).cloned().collect();
+                let p = if !empty.is_empty() && w.rng.gen_bool(0.85) { pick(w, &empty) } else { pick(w, &pos) };
+                let owner = w.positions[&p].owner.clone();
+                if w.rng.gen_bool(0.8) {
+                    let ix = w.ix_collect_fees(&p, &owner, v2);
+                    rec.exec(w, &ix, false, json!(null));
+                }
+                let (a, b) = (pick(w, &sc.bounds), pick(w, &sc.bounds));
+                if a < b && w.positions[&p].bundle.is_none() {
+                    for t in [a, b] {
+                        let start = w.ta_start(&pool, t);
+                        if !w.ta_exists(&pool, start) {
+                            let dynamic = w.pools[&pool].dynamic;
+                            let ix = w.ix_init_tick_array(&pool, start, dynamic);
+                            rec.exec(w, &ix, true, json!("setup"));
+                        }
+                    }
+                    let ix = w.ix_reset_range(&p, &owner, a, b);
+                    rec.exec(w, &ix, false, json!(null));
+                }
+            }
+            _ => {}
+        }
+        return;
+    }
     let r = w.rng.gen_range(0..100);
     if !pos.is_empty() && !sc.full_range_only && w.rng.gen_bool(0.04) {
         mirror_position(w, sc, rec, &pos, v2);
@@ -656,7 +707,9 @@ pub fn drain(w: &World, rec: &mut Recorder) {
         }
         let owner = c.positions[p].owner.clone();
         let (l, _, _) = c.pos_range(p).unwrap();
-        if l > 0 {
+        // (a locked position cannot be withdrawn - by design, C18; its fees can still be collected)
+        let locked = c.bank.accts.contains_key(&c.lock_config_key(p));
+        if l > 0 && !locked {
             let v = v2all || c.rng.gen_bool(0.5);
             let ix = c.ix_decrease(p, &owner, l, 0, 0, v);
             rec.exec(&mut c, &ix, true, json!("drain"));
